@@ -10,7 +10,7 @@ demo_rel=$(grep -oE "(crates|bins)/[A-Za-z0-9_/.-]+\.rs" "$O/demo_path.txt" | he
 tname=$(basename "$demo_rel" .rs)
 pkgdir=$(echo "$demo_rel" | sed -E 's#/tests/.*##')
 pkg=$(grep -m1 '^name' "$pkgdir/Cargo.toml" | sed -E 's/.*"(.*)".*/\1/')
-run_demo() { cargo test --workspace --offline --test "$tname" 2>&1 | grep -E "^test result|panicked|FAILED|error" | head -5; }
+run_demo() { cargo test --workspace --offline --test "$tname" 2>&1 | grep -E "^test result|^test .* FAILED" | tail -4; }
 echo "== demo WITHOUT change"; run_demo
 git apply "$O/patch.diff" || { echo "patch does not apply"; exit 2; }
 echo "== suite WITH change (excluding seeded demos)"
